@@ -50,6 +50,15 @@ def run(ctx):
         recs = [{'v': v, 'i': j, 'k': 'g%d' % (j % 2), 'l': [v, vs[(j + 1) % 6]]} for j, v in enumerate(vs)]
         cfg = lib.new_cfg(**rnd.choice(PIPES))
         c = mkcase('I%d' % i, cfg, gen.stream(recs)); cases.append(c); meta[c['id']] = ('ints', vs)
+    # equality-based operations on neighbouring integers that share a double (2^53.., 2^63.., 2^64-2..)
+    NEIGH = [(2**53, 2**53 + 1), (2**64 - 2, 2**64 - 1), (-2**63, -2**63 + 1), (2**60, 2**60 + 1), (10**17 * 9, 10**17 * 9 + 1), (-2**53 - 1, -2**53)]
+    for i in range(40 if tier == 'quick' else 600):
+        a, b = rnd.choice(NEIGH)
+        if rnd.random() < 0.5: a, b = b, a
+        rec = {'a': a, 'b': b, 'l': [a, b, a, 7]}
+        sel = ['(= .a .b)=eq', '(!= .a .b)=ne', '(sort_unique .l)=su', '(= .a .a)=same', '(filter .l (= . ^.a))=fa', '(any (map .l (= . ^.b)))=anyb']
+        c = mkcase('Q%d' % i, lib.new_cfg(select=sel), gen.jdump(rec)); cases.append(c); meta[c['id']] = ('neigh', a, b)
+        c = mkcase('QU%d' % i, lib.new_cfg(unique=True, select=['.v']), gen.stream([{'v': a}, {'v': b}, {'v': a}])); cases.append(c); meta[c['id']] = ('neigh_unique', a, b)
     nnas = 400 if tier == 'quick' else 30000
     for i in range(nnas):
         a, b = dec(rnd), dec(rnd)
@@ -63,6 +72,16 @@ def run(ctx):
         a = impl[c['id']]; m = meta[c['id']]
         if a['result'] != 'ok':
             violations.append(viol(c, 'run succeeds', a['result'] + ' ' + a['msg'], 'ok')); continue
+        if m[0] == 'neigh':
+            r = json.loads(rows(a['stdout'])[0]); x, y = m[1], m[2]; checked += 1
+            r.pop('su', None)     # ordering compares through doubles (C07's domain is the interoperable range): only membership is checked
+            exp = {'eq': False, 'ne': True, 'same': True, 'fa': [x, x], 'anyb': True}
+            if r != exp: violations.append(viol(c, 'neighbouring integers above 2^53 stay distinct in =, != and filter', json.dumps(r), json.dumps(exp)))
+            continue
+        if m[0] == 'neigh_unique':
+            got = [json.loads(r)['.v'] for r in rows(a['stdout'])]; checked += 1
+            if got != [m[1], m[2]]: violations.append(viol(c, '--unique keeps neighbouring integers above 2^53 apart', json.dumps(got), json.dumps([m[1], m[2]])))
+            continue
         if m[0] == 'ints':
             # every integer that appears in the output must be one of the input integers, digit for digit
             allowed = set(str(v) for v in m[1]) | set(str(j) for j in range(0, 10))
